@@ -6,6 +6,7 @@ import Driver.Conv
 import Driver.CompileDrv
 import Driver.SemDrv
 import Driver.Pos
+import Driver.V1
 open Driver
 
 /-- a trailing field starting with '#' carries human-readable context and is ignored -/
@@ -26,6 +27,7 @@ def dispatch (line : String) : String :=
   | "compile" :: args => handleCompile args
   | "sem" :: args => handleSem args
   | "pos" :: args => handlePos args
+  | "v1" :: args => handleV1 args
   | _ => "bad-op"
 
 partial def loop (h : IO.FS.Stream) (out : IO.FS.Stream) : IO Unit := do
